@@ -59,6 +59,7 @@ def check(ctx) -> None:
     r78(ctx)
     r79(ctx)
     r710(ctx)
+    r711(ctx)
 
 
 def r71(ctx) -> None:
@@ -598,3 +599,91 @@ def r710(ctx) -> None:
                 'provider writes the log placeholder — the wire carries '
                 '`* 4 FETCH (RFC822.SIZE ... ENVELOPE ...)`, which is not an '
                 'nstring, number or list')
+
+
+def r711(ctx) -> None:
+    """FETCH values are rendered while the response line is being written
+    (R7.10).  An accessor of the loaded message that lets the "no content"
+    signal out at that moment leaves `* n FETCH (FLAGS (...) UID 1 ` on the
+    wire with the BYE appended to it: an unterminated line with unbalanced
+    parentheses.  Every accessor fetch.py calls on the loaded message
+    therefore handles that signal itself."""
+    R = ctx.rule('R7.11', 'loaded-message accessors used while a FETCH line '
+                 'is written contain the no-content signal', 6)
+    proj = ctx.proj
+    blm = proj.cls('pymap/message.py', 'BaseLoadedMessage')
+    # the signalling properties: a property of the class that raises
+    props = {}
+    for fs in blm.methods.values():
+        for f in fs:
+            if 'property' in f.decorators:
+                rs = [r for r in walk_local(f.node) if isinstance(r, ast.Raise)
+                      and r.exc is not None]
+                if rs:
+                    e = rs[0].exc
+                    props[f.name] = txt(e.func if isinstance(e, ast.Call)
+                                        else e).split('.')[-1]
+    if not props:
+        raise AnchorError('no raising property on BaseLoadedMessage: the '
+                          'no-content signal moved, re-audit R7.11')
+    from ..escape import Escapes
+    from ..callgraph import CallGraph
+    es = Escapes(proj, CallGraph(proj))
+    # accessors by role: what fetch.py calls on a loaded message
+    fetch = proj.module('pymap/fetch.py')
+    used = set()
+    for n in ast.walk(fetch.tree):
+        if isinstance(n, ast.Call) and isinstance(n.func, ast.Attribute) and \
+                isinstance(n.func.value, ast.Name) and \
+                n.func.value.id == 'loaded_msg':
+            used.add(n.func.attr)
+    if len(used) < 6:
+        raise AnchorError(f'only {sorted(used)} accessor(s) called on '
+                          f'loaded_msg in fetch.py (6 confirmed by hand)')
+    # methods that let the signal out (fixpoint over self-calls)
+    leaky: dict[str, tuple] = {}
+    methods = {f.name: f for fs in blm.methods.values() for f in fs
+               if 'property' not in f.decorators}
+    changed = True
+    while changed:
+        changed = False
+        for nm, f in methods.items():
+            if nm in leaky:
+                continue
+            for n in walk_local(f.node):
+                src = None
+                if isinstance(n, ast.Attribute) and is_name(n.value, 'self') \
+                        and n.attr in props and isinstance(n.ctx, ast.Load):
+                    src = (props[n.attr], f'self.{n.attr}')
+                elif isinstance(n, ast.Call) and \
+                        isinstance(n.func, ast.Attribute) and \
+                        is_name(n.func.value, 'self') and \
+                        n.func.attr in leaky:
+                    src = (leaky[n.func.attr][0], f'self.{n.func.attr}()')
+                if src and not es.caught(f, n, src[0]):
+                    leaky[nm] = (src[0], src[1], n)
+                    changed = True
+                    break
+    for nm in sorted(used):
+        f = methods.get(nm)
+        if f is None:
+            R.undecided(blm.own_method('__init__') or next(iter(
+                methods.values())), None, f'accessor {nm}',
+                f'fetch.py calls loaded_msg.{nm}() but BaseLoadedMessage '
+                f'has no such method')
+            continue
+        if nm in leaky:
+            exc, what, node = leaky[nm]
+            R.fail(f, node, f'BaseLoadedMessage.{nm} contains {exc}',
+                   f'`{what}` in {nm}() is not under a handler for {exc}: '
+                   f'when the backend has no content for the message (its '
+                   f'file was unlinked by another session\'s EXPUNGE before '
+                   f'this session learnt of it), the exception is raised '
+                   f'while FetchResponse.write is in the middle of the line; '
+                   f'the wire carries `* 1 FETCH (FLAGS (..) UID 1 * BYE '
+                   f'[SERVERBUG] ...` — an unterminated FETCH with '
+                   f'unbalanced parentheses')
+        else:
+            R.ok(f, f.node, f'BaseLoadedMessage.{nm} contains '
+                 f'{sorted(set(props.values()))}',
+                 'every read of the signalling property is under a handler')
